@@ -187,7 +187,14 @@ def scan_module(prog, m):
             name = f.id if isinstance(f, ast.Name) else (f.attr if isinstance(f, ast.Attribute) else "")
             if name in ("list", "dict", "set", "deque", "defaultdict", "OrderedDict", "Counter", "bytearray"):
                 return True
-            if name[:1].isupper() and name not in ("TypeVar", "NewType", "Union", "Optional"):
+            if name.lstrip("_")[:1].isupper() and name not in ("TypeVar", "NewType", "Union", "Optional"):
+                K = prog.resolve_class(m, f)
+                if K is not None and prog.find_method(K, "__set__")[1] is not None:
+                    # a descriptor: shared only if it keeps the values on itself instead of on the instance
+                    st = prog.find_method(K, "__set__")[1]
+                    me = st.args.args[0].arg if st.args.args else "self"
+                    return any(isinstance(x, ast.Attribute) and isinstance(x.ctx, ast.Store) and
+                               isinstance(x.value, ast.Name) and x.value.id == me for x in ast.walk(st))
                 return True
         return False
     for n in m.tree.body:
